@@ -379,6 +379,10 @@ inline void ReadMap(CodedInputStream& stream, std::unordered_map<TKey, TValue>& 
   uint64_t size;
   ReadInteger(stream, size);
 
+  // The destination may be reused between reads (e.g. by CopyTo), so entries
+  // of a previously read map must not survive.
+  value.clear();
+
   for (size_t i = 0; i < size; i++) {
     TKey k;
     ReadKey(stream, k);
